@@ -101,7 +101,19 @@ Cmp(op, b) == /\ UNCHANGED <<s, mem>>
               /\ last' = Rec(op, 0, b, IF mem = 0 THEN LexCmp([i \in 1..n |-> 0], [i \in 1..Len(IF op = "cmps" THEN CStr(b) ELSE b) |-> 0])
                                         ELSE LexCmp(s, IF op = "cmps" THEN CStr(b) ELSE b), <<>>, 0)
 
+\* number of code points at the head of the content and the bytes they take: the count stops at a NUL, at a byte that
+\* cannot start a character, and at a character cut short by the end of the CONTENT (not of the capacity)
+RECURSIVE UtfWalk(_, _, _)
+UtfWalk(b, i, cnt) ==
+  IF i > Len(b) THEN <<cnt, i - 1>>
+  ELSE LET L == LeadLen(b[i]) IN
+       IF b[i] = 0 \/ L = 0 \/ i + L - 1 > Len(b) \/ ~(\A j \in 1..(L - 1) : IsCont(b[i + j])) THEN <<cnt, i - 1>>
+       ELSE UtfWalk(b, i + L, cnt + 1)
+UtfLen == LET w == UtfWalk(s, 1, 0) IN
+          /\ mem > 0 /\ UNCHANGED <<s, mem>> /\ last' = Rec("utf_len", 0, <<>>, w[1], <<w[2]>>, 0)
+
 Next ==
+  \/ UtfLen
   \/ \E c \in Bytes : CatC(c) \/ CatC_(c)
   \/ \E b \in Blocks : CatN(b) \/ CatN_(b) \/ CatS(b) \/ CatS_(b) \/ Cat(b) \/ Cat_(b)
   \/ \E f \in Fmts : CatF(f)
